@@ -48,51 +48,53 @@ def chunks(items, size):
     return [items[i:i + size] for i in range(0, len(items), size)]
 
 
-def bfs(initial_history, operations, build, canon, judge_edge, part, max_depth=None, max_states=None, merge=True):
-    """Breadth-first search over histories.
+def bfs(run, operations, part, max_depth=None, max_states=None, merge=True, extend=None):
+    """Breadth-first search over histories (tuples of operations).
 
-    build(history) -> live state (fresh real objects, the history replayed)
-    canon(state) -> hashable canonical snapshot
-    judge_edge(history, op, part) -> executes history + [op] on fresh objects, compares the
-        observation of the last operation with the model, returns the canonical snapshot reached.
-    Every edge out of every distinct state is executed; a history is extended only if the
-    state it reaches is new (merge=True) — with merge=False every history up to max_depth
-    is extended (plain enumeration, used to cross-check the merging).
-    Returns dict(states, transitions, depth_completed, fixpoint).
+    run(history) executes the whole history on fresh real objects, compares every observation
+    with the model (recording failures itself) and returns the canonical snapshot of the state
+    reached, or None if the history must not be extended (e.g. the run is over).
+    Every operation is applied in every distinct state; a history is extended only if the state
+    it reaches has not been seen (merge=True).  With merge=False every history up to max_depth is
+    extended - plain enumeration, used to cross-check the merging.
+    extend(history, op) may veto individual edges.
+    Returns dict(states, transitions, depth_completed, fixpoint, capped).
     """
-    seen = {}
-    start_key = canon(build(list(initial_history)))
-    seen[start_key] = tuple(initial_history)
+    start_key = run(())
+    part.transitions += 1
+    seen = {start_key: ()}
     part.state(start_key)
-    frontier = [tuple(initial_history)]
+    frontier = [()]
     depth = 0
-    transitions = 0
+    transitions = 1
     fixpoint = False
-    while frontier:
+    capped = False
+    while frontier and not capped:
         if max_depth is not None and depth >= max_depth:
             break
         next_frontier = []
         for history in frontier:
             for op in operations:
-                key = judge_edge(list(history), op, part)
+                if extend is not None and not extend(history, op):
+                    continue
+                longer = history + (op,)
+                key = run(longer)
                 transitions += 1
                 part.transitions += 1
                 if key is None:
                     continue
-                if merge:
-                    if key in seen:
+                if key in seen:
+                    if merge:
                         continue
-                    seen[key] = history + (op,)
-                    part.state(key)
                 else:
-                    if key not in seen:
-                        seen[key] = history + (op,)
-                        part.state(key)
-                next_frontier.append(history + (op,))
-                if max_states is not None and len(seen) > max_states:
-                    return {"states": len(seen), "transitions": transitions, "depth_completed": depth, "fixpoint": False, "capped": True}
+                    seen[key] = longer
+                    part.state(key)
+                next_frontier.append(longer)
+            if max_states is not None and len(seen) > max_states:
+                capped = True
+                break
         frontier = next_frontier
         depth += 1
-        if not frontier:
+        if not frontier and not capped:
             fixpoint = True
-    return {"states": len(seen), "transitions": transitions, "depth_completed": depth, "fixpoint": fixpoint, "capped": False, "representatives": seen}
+    return {"states": len(seen), "transitions": transitions, "depth_completed": depth, "fixpoint": fixpoint, "capped": capped, "representatives": seen}
